@@ -1,5 +1,5 @@
 """C20 — the SSE stream yields every event exactly once, in order, however bytes arrive."""
-import json, os, random, subprocess
+import json, os, random, re, subprocess
 import vlib
 from vlib import Result, log
 
@@ -146,7 +146,20 @@ def dispatch_part(viol):
     shapes = [[("text/plain", S), ("text/event-stream", c04.REF_PET)], [("text/event-stream", c04.REF_PET), ("text/plain", S)],
               [("application/json", c04.REF_ERR), ("text/event-stream", c04.REF_PET), ("text/csv", S)], [("text/event-stream", c04.REF_PET)],
               [("text/html", S), ("text/event-stream", S)]]
+    # the item type of the stream is the declared schema's type, wrappers included
+    typed = [({"type": "array", "items": {"type": "integer"}}, "Vec<i64>"), ({"type": ["integer", "null"]}, "Option<i64>"), (c04.REF_PET, "<Pet>")]     # (an array of $ref items is named through an alias)
     n = 0
+    for k, (sch, want) in enumerate(typed):
+        spec = c04.make_spec([("200", [("text/event-stream", sch)])])
+        sp = os.path.join(d, f"t{k}.json")
+        json.dump(spec, open(sp, "w"))
+        out = os.path.join(d, f"t{k}")
+        rc, txt = vlib.oas(["generate", "client-mod", "-i", sp, "-o", out, "-q"])
+        text = open(os.path.join(out, "types.rs")).read().replace(" ", "").replace("\n", "") if rc == 0 else ""
+        n += 1
+        m = re.search(r"EventStream<(.*?)>>::from_response", text)
+        if rc != 0 or not m or want.replace(" ", "") not in "<" + m.group(1) + ">":
+            viol.append((f"item type {sch}", f"generated stream item type for the event schema {json.dumps(sch)}: the parser builds EventStream<{m.group(1) if m else '?'}>, the declared payload is {want.strip('<>')} (every event of that shape would be a decode error)"))
     for k, shape in enumerate(shapes):
         for key in ("200", "2XX", "default"):
             spec = c04.make_spec([(key, shape)])
